@@ -230,7 +230,39 @@ fn expected_evaluate(m: &AbsModel, flags: &str, ws: &str, stdin: &str) -> Result
     }
 }
 
+/// `CPX <flags>:<wsconst|-> <model> <hex of complete, valid input lines> <hex of the bytes that follow>` (oracle-only, run inside
+/// `BIG`): the bytes that follow start with a line that is not valid UTF-8, so the tool cannot go on — but the lines it had
+/// already read must have been answered, exactly as for the valid prefix alone, and the failure must not be a panic
+fn run_cpx(toks: &[&str], fails: &mut Vec<(String, String)>) -> String {
+    let ["CPX", fl, m, h, tail, ..] = toks else { return "bad-case".into() };
+    let (Some(m), Some(prefix), Some(tail)) = (AbsModel::parse(m), unhexs(h), crate::util::unhex(tail)) else { return "bad-case".into() };
+    let (flags, ws) = fl.split_once(':').unwrap_or((fl, "-"));
+    let ws = if ws == "-" { "" } else { ws };
+    let dir = scratch_dir("c20x");
+    let mp = dir.join("model.zst");
+    write_zst(&mp, &m.to_bytes());
+    let mut stdin = prefix.as_bytes().to_vec();
+    stdin.extend_from_slice(&tail);
+    let o = run_tool("predict", &tool_args(&mp, flags, ws, false), &stdin);
+    let _ = std::fs::remove_dir_all(&dir);
+    if o.stderr.contains("panicked") {
+        fails.push(("C20".into(), format!("predict {fl} panicked on input that stops being UTF-8 after {} lines: {}", prefix.lines().count(), o.stderr.lines().find(|l| l.contains("panicked")).unwrap_or(""))));
+    }
+    if let Ok(Ok(exp)) = catch(|| expected_predict(&m, flags, ws, &prefix)) {
+        if !o.stdout.starts_with(exp.as_bytes()) {
+            let got = String::from_utf8_lossy(&o.stdout).to_string();
+            fails.push(("C20".into(), format!(
+                "predict {fl}: the input is {} valid lines ({}) followed by bytes that are not UTF-8; the answers to the valid lines are {} bytes, but the tool's output ({} bytes, exit {:?}) does not begin with them: printed {}, expected to begin with {}",
+                prefix.lines().count(), clip(&prefix), exp.len(), o.stdout.len(), o.code, clip_diff(&got, &exp).0, clip_diff(&got, &exp).1)));
+        }
+    }
+    "big".into()
+}
+
 pub fn run(toks: &[&str], fails: &mut Vec<(String, String)>) -> String {
+    if toks.first() == Some(&"CPX") {
+        return run_cpx(toks, fails);
+    }
     let c20 = toks.last() == Some(&"c20");
     let (kind, fl, m, h) = match toks {
         [k @ ("CP" | "CE"), fl, m, h, _cl, ..] => (*k, *fl, *m, *h),
@@ -372,6 +404,19 @@ pub fn gen(out: &mut dyn std::io::Write, thorough: bool, seed: u64) {
             }
             for flags in ["", "n", "ts"] {
                 writeln!(out, "BIG CP {flags}:- {mt} {} - c20", hexs(&big)).unwrap();
+            }
+        }
+        // an input that stops being UTF-8 part-way (oracle-only): a few lines / more than the tool's output buffer holds, then a
+        // line with a lone continuation byte, then more lines
+        if i % 4 == 2 {
+            for (n_lines, flags) in [(3usize, ""), (3, "nts"), (2500, "")] {
+                let mut prefix = String::new();
+                for k in 0..n_lines {
+                    prefix.push_str(&gen_text_tags(&mut r, &m, &alpha, 9));
+                    prefix.push_str(if k % 5 == 4 { "\r\n" } else { "\n" });
+                }
+                let tail: Vec<u8> = [b"ab".as_slice(), &[0x80, 0xE3, 0x81], b"c\nmore\n".as_slice()].concat();
+                writeln!(out, "BIG CPX {flags}:- {mt} {} {} c20", hexs(&prefix), crate::util::hex(&tail)).unwrap();
             }
         }
         // many lines through one run of the tool (the sentence objects are reused for every line), once per run of the generator
